@@ -82,7 +82,7 @@ func notIn(p *Term, l Loc) *Term {
 	case LocExact:
 		return Not(Eq(p, l.t))
 	default:
-		c, _ := isElemOf(p, SlcArr(l.t))
+		c, _ := isElemOfX(p, SlcArr(l.t), true)
 		return Not(c)
 	}
 }
